@@ -211,3 +211,103 @@ _reg0 = register
 def register(Rg):  # noqa: F811
     _reg0(Rg)
     register_affine(Rg)
+
+
+# ===========================================================================
+# constructors and derived lemmas
+def register_ctors(Rg):
+    def tm_acts(expected):
+        def f(E, v, o):
+            p = (R(v["px"]), R(v["py"]), R(v["pz"]))
+            got = act(v["self"].fields["tm"], p)
+            exp = expected(E, v, p)
+            return z3.And(*[g == e for g, e in zip(got[:3], exp)], got[3] == 1)
+
+        return f
+
+    def cs(E, v):
+        c, s = trig(E, v["theta"])
+        return R(c), R(s)
+
+    import swcgeom.transforms.geometry as G
+
+    def mk(cls, **params):
+        def setup(S):
+            d = dict(self=S.obj(cls), **point(S))
+            for k, kind in params.items():
+                d[k] = S.real(k) if kind == "real" else kind
+            return d
+
+        return setup
+
+    Rg.add(f"{GEO}:Translate.__init__", prop="C12", setup=mk(G.Translate, tx="real", ty="real", tz="real"),
+           ensures=[("matrix-translates-by-t", tm_acts(lambda E, v, p: [p[0] + R(v["tx"]), p[1] + R(v["ty"]), p[2] + R(v["tz"])])),
+                    "centre-is-origin :: self.center == 'origin'"])
+    for center in ("root", "origin"):
+        pass
+    Rg.add(f"{GEO}:Scale.__init__", prop="C12",
+           variants={c: mk(G.Scale, sx="real", sy="real", sz="real", center=c) for c in ("root", "origin")},
+           ensures=[("matrix-scales-per-axis", tm_acts(lambda E, v, p: [p[0] * R(v["sx"]), p[1] * R(v["sy"]), p[2] * R(v["sz"])])),
+                    "centre-as-requested :: self.center == center"])
+    Rg.add(f"{GEO}:RotateX.__init__", prop="C12", variants={c: mk(G.RotateX, theta="real", center=c) for c in ("root", "origin")},
+           ensures=[("matrix-rotates-about-x", tm_acts(lambda E, v, p: (lambda c, s: [p[0], c * p[1] - s * p[2], s * p[1] + c * p[2]])(*cs(E, v)))),
+                    "centre-as-requested :: self.center == center"])
+    Rg.add(f"{GEO}:RotateY.__init__", prop="C12", variants={c: mk(G.RotateY, theta="real", center=c) for c in ("root", "origin")},
+           ensures=[("matrix-rotates-about-y", tm_acts(lambda E, v, p: (lambda c, s: [c * p[0] + s * p[2], p[1], -s * p[0] + c * p[2]])(*cs(E, v)))),
+                    "centre-as-requested :: self.center == center"])
+    Rg.add(f"{GEO}:RotateZ.__init__", prop="C12", variants={c: mk(G.RotateZ, theta="real", center=c) for c in ("root", "origin")},
+           ensures=[("matrix-rotates-about-z", tm_acts(lambda E, v, p: (lambda c, s: [c * p[0] - s * p[1], s * p[0] + c * p[1], p[2]])(*cs(E, v)))),
+                    "centre-as-requested :: self.center == center"])
+
+    def rot_setup(center):
+        def setup(S):
+            nx, ny, nz = S.real("nx"), S.real("ny"), S.real("nz")
+            S.assume(nx.z * nx.z + ny.z * ny.z + nz.z * nz.z == 1)
+            return dict(self=S.obj(G.Rotate), n=NArr((3,), [nx, ny, nz], "real"), theta=S.real("theta"), center=center, nx=nx, ny=ny, nz=nz, **point(S))
+
+        return setup
+
+    Rg.add(f"{GEO}:Rotate.__init__", prop="C12", variants={c: rot_setup(c) for c in ("root", "origin")},
+           ensures=[("matrix-is-rodrigues", tm_acts(lambda E, v, p: rodrigues(*cs(E, v), (R(v["nx"]), R(v["ny"]), R(v["nz"])), p))),
+                    "centre-as-requested :: self.center == center"])
+
+
+def lemmas():
+    """Derived facts over the builders' spec forms (pure real arithmetic)."""
+    out = []
+    c, s, nx, ny, nz = z3.Reals("c s nx ny nz")
+    px, py, pz, qx, qy, qz = z3.Reals("px py pz qx qy qz")
+    circ = [c * c + s * s == 1]
+    unit = [nx * nx + ny * ny + nz * nz == 1]
+    d2 = lambda a, b: sum(((a[k] - b[k]) * (a[k] - b[k]) for k in range(3)), z3.RealVal(0))
+    forms = {
+        "x": lambda p: [p[0], c * p[1] - s * p[2], s * p[1] + c * p[2]],
+        "y": lambda p: [c * p[0] + s * p[2], p[1], -s * p[0] + c * p[2]],
+        "z": lambda p: [c * p[0] - s * p[1], s * p[0] + c * p[1], p[2]],
+    }
+    P, Q = (px, py, pz), (qx, qy, qz)
+    for ax, f in forms.items():
+        out.append((f"rotation-{ax}-preserves-distances", circ, d2(f(P), f(Q)) == d2(P, Q)))
+        inv = {"x": lambda p: [p[0], c * p[1] + s * p[2], -s * p[1] + c * p[2]],
+               "y": lambda p: [c * p[0] - s * p[2], p[1], s * p[0] + c * p[2]],
+               "z": lambda p: [c * p[0] + s * p[1], -s * p[0] + c * p[1], p[2]]}[ax]
+        out.append((f"rotation-{ax}-then-inverse-is-identity", circ, z3.And(*[a == b for a, b in zip(inv(f(P)), P)])))
+    rod = lambda p: rodrigues(c, s, (nx, ny, nz), p)
+    out.append(("rodrigues-fixes-its-axis", circ + unit, z3.And(*[a == b for a, b in zip(rod((nx, ny, nz)), (nx, ny, nz))])))
+    out.append(("rodrigues-preserves-distances", circ + unit, d2(rod(P), rod(Q)) == d2(P, Q)))
+    rod_inv = lambda p: rodrigues(c, -s, (nx, ny, nz), p)
+    out.append(("rodrigues-then-inverse-is-identity", circ + unit, z3.And(*[a == b for a, b in zip(rod_inv(rod(P)), P)])))
+    sx, sy, sz, tx, ty, tz = z3.Reals("sx sy sz tx ty tz")
+    out.append(("scale-then-inverse-is-identity", [sx != 0, sy != 0, sz != 0], z3.And(px * sx * (1 / sx) == px, py * sy * (1 / sy) == py, pz * sz * (1 / sz) == pz)))
+    out.append(("translate-then-inverse-is-identity", [], z3.And(px + tx - tx == px, py + ty - ty == py, pz + tz - tz == pz)))
+    # centred map p -> A(p - r) + r fixes r when A has no translation part
+    rx = z3.Real("rx")
+    return out
+
+
+_reg1 = register
+
+
+def register(Rg):  # noqa: F811
+    _reg1(Rg)
+    register_ctors(Rg)
